@@ -249,3 +249,10 @@ package graph
 //@   loop 4
 //@     step rewired_edge: outEdge.Src == parent && outEdge.Residual && (outEdge.Inline <==> parentEdgeInline && atiter(4, outEdge.Inline))
 //@     step old_entry_gone: cur != parent && child.In != parent.Out ==> !has(child.In, cur)
+
+// ---- C04 (strengthened after seeded change dot-node-omits-cum-when-not-larger-in-magnitude-than-flat): a DOT node
+// label carries the flat value whenever it is non-zero and the cum value whenever it differs from flat — whatever their
+// signs or magnitudes (the share of each is computed from exactly that value).
+//@ func builder.addNode nosafety
+//@   mustcall Percentage flat_shown: $arg0 == flat when flat != 0
+//@   mustcall Percentage cum_shown: $arg0 == cum when cum != flat
